@@ -17,7 +17,7 @@ ASSUMPTIONS = [
 STUBS = ["numpy.sqrt inside numpy.linalg.norm: fresh y with y >= 0 and y*y = x (contract)"]
 BOUNDS = {
     "quick": dict(points="<=3 (filter: <=4 for 2 objectives)", objectives="<=3", while_loop_cap="npt+1 iterations (pivot index strictly increases; cap checked by the path budget)"),
-    "thorough": dict(points="<=5 (2 objectives), <=4 (3 objectives)", objectives="<=3"),
+    "thorough": dict(points="filter: <=5 (2 objectives), <=4 (3 objectives); distance transformations: <=3 points x 2 objectives, 1 point x 3 objectives", objectives="<=3"),
 }
 OUTSIDE = ["more points/objectives than the bounds", "floating-point rounding inside the distance transformations (exact reals)",
            "NaN / infinite coordinates"]
@@ -250,7 +250,7 @@ def obligations(tier):
     for n in ((1, 2) if tier == "quick" else (1, 2, 3)):
         obs.append(Dominates(nobj=n))
     for which in ("core", "prob", "transfn"):
-        for (npt, nobj) in ([(1, 2), (2, 2), (3, 2)] if tier == "quick" else [(1, 1), (1, 2), (2, 2), (3, 2), (2, 3), (3, 3), (4, 2)]):
+        for (npt, nobj) in ([(1, 2), (2, 2), (3, 2)] if tier == "quick" else [(1, 1), (1, 2), (2, 2), (3, 2), (1, 3)]):      # (2,3), (3,3), (4,2) exhaust time or memory in z3 (non-linear norms)
             h = DistTransform(which=which, npt=npt, nobj=nobj)
             h.weight = 10 * npt * nobj
             obs.append(h)
